@@ -112,9 +112,52 @@ PartClauses(e) ==
                         /\ Extends(col, part) /\ c.k = NColours(col)
              ELSE c.err = "invalid-partial">> >>
 
+(* ---- colourings of graphs beyond the enumeration bound (18..32 nodes) ---- *)
+\* One event = one graph and every (k, colouring) the real routines returned for it: many calls of
+\* DsaturExact on rebuilt containers, a few of each heuristic.  Every colouring must be total,
+\* proper and use exactly k colours; a call of the exact solver must not be beaten by ANY valid
+\* colouring recorded for the same graph (a larger k is refuted by the smaller proper colouring
+\* validated right here).  That the least k is the chromatic number is ChromaticSearch.tla's part.
+ChromCallOK(V, E, c) ==
+    LET col == TLCEval(Fn(c.col)) IN
+    /\ c.err = "" /\ Len(c.col) = Cardinality(V) /\ IsProper(V, E, col) /\ c.k = NColours(col)
+ChromAlgs == <<"DsaturExact", "Dsatur", "Randomized", "RecursiveLargestFirst", "SanSegundo", "WelshPowell">>
+ChromClauses(e) ==
+    LET V == Rng(e.V) E == TLCEval(Sym(PairsOf(e.E)))
+        valid == {i \in DOMAIN e.calls : ChromCallOK(V, E, e.calls[i])}
+        least == Min({e.calls[i].k : i \in valid})
+        bad(alg) == {i \in DOMAIN e.calls \ valid : e.calls[i].alg = alg}
+    IN << <<"graph-well-formed", Cardinality(V) = Len(e.V) /\ \A p \in E : p[1] \in V /\ p[2] \in V /\ p[1] # p[2]>> >>
+       \o [a \in DOMAIN ChromAlgs |-> <<ChromAlgs[a] \o ": total, proper, exactly k colours", bad(ChromAlgs[a]) = {}>>]
+       \o << <<"other colourings: total, proper, exactly k colours",
+                {i \in DOMAIN e.calls \ valid : e.calls[i].alg \notin Rng(ChromAlgs)} = {}>>,
+              <<"DsaturExact-attains-least-k-of-any-recorded-colouring",
+                \A i \in valid : e.calls[i].exact => e.calls[i].k = least>>,
+              \* (that no maximal clique is missing is CliqueSearch.tla's part)
+              <<"BronKerbosch: every returned clique is maximal, none twice", e.cl =>
+                LET adj == TLCEval([v \in V |-> Succ(E, v)]) IN
+                /\ NoDup(SetSeq(e.cliques))
+                /\ \A i \in DOMAIN e.cliques : LET S == Rng(e.cliques[i]) IN
+                      /\ NoDup(e.cliques[i]) /\ S # {} /\ S \subseteq V
+                      /\ \A u \in S : S \ {u} \subseteq adj[u]
+                      /\ \A v \in V \ S : ~(S \subseteq adj[v])>> >>
+
+(* ---- elementary cycles of digraphs beyond the enumeration bound (8..16 nodes) ---- *)
+\* every call returned closed walks, each an elementary cycle in canonical form, none twice
+\* (that no elementary cycle is missing is CycleSearch.tla's part)
+DcycClauses(e) ==
+    LET V == Rng(e.V) E == TLCEval(PairsOf(e.E)) IN
+    << <<"graph-well-formed", Cardinality(V) = Len(e.V) /\ \A p \in E : p[1] \in V /\ p[2] \in V /\ p[1] # p[2]>>,
+       <<"DirectedCyclesIn: every returned cycle is elementary, none twice", \A r \in DOMAIN e.runs :
+            LET cs == e.runs[r].cycles IN
+            /\ e.runs[r].raw /\ NoDup(cs)
+            /\ \A i \in DOMAIN cs : Len(cs[i]) >= 2 /\ IsClosedSimple(E, cs[i]) /\ cs[i][1] = Min(Rng(cs[i]))>> >>
+
 Clauses(e) == CASE e.k = "dir" -> DirClauses(e)
                 [] e.k = "und" -> UndClauses(e)
                 [] e.k = "part" -> PartClauses(e)
+                [] e.k = "chrom" -> ChromClauses(e)
+                [] e.k = "dcyc" -> DcycClauses(e)
 Valid(e) == LET cl == Clauses(e) IN \A i \in DOMAIN cl : cl[i][2]
 
 Init == l = 1
